@@ -60,7 +60,7 @@ fn run(ctx: &RunCtx) -> Report {
     let rawnet = RawNet::new();
     let n = rng.usize(3, 8);
     // storer families
-    let family = rng.below(8);
+    let family = rng.below(9);
     // families 5/6: the smallest 3xx majority (resp. exactly half) answers at once, the rest acknowledge late
     let code56: i64 = if rng.chance(1, 2) { 301 } else { 302 };
     let mut addrs = vec![];
@@ -99,6 +99,23 @@ fn run(ctx: &RunCtx) -> Report {
                     PutReply::Ack
                 }
             }
+            // family 8: an acknowledgement arrives first, then a bare majority rejects, stragglers
+            // (late acks or silence) keep the put open: the majority must still surface
+            8 if n >= 5 => {
+                if i == 0 {
+                    p.delay = rng.range(0, 20) * MS;
+                    PutReply::Ack
+                } else if i <= n / 2 + 1 {
+                    p.delay = rng.range(60, 140) * MS;
+                    PutReply::Error(code56)
+                } else if rng.chance(1, 2) {
+                    p.delay = rng.range(250, 380) * MS;
+                    PutReply::Ack
+                } else {
+                    PutReply::Silent
+                }
+            }
+            8 => PutReply::Ack,
             _ => {
                 if i == 0 {
                     PutReply::Error(if rng.chance(1, 2) { 301 } else { 302 })
@@ -122,7 +139,7 @@ fn run(ctx: &RunCtx) -> Report {
                 Res::NotMostRecent
             }
         }
-        0 | 4 | 6 | 7 => Res::Ok,
+        0 | 4 | 6 | 7 | 8 => Res::Ok,
         1 => Res::Cas,
         2 => Res::NotMostRecent,
         _ => Res::Query,
@@ -237,7 +254,7 @@ fn run(ctx: &RunCtx) -> Report {
     // reply came later than the adaptive request timeout is legitimately left out), so it is
     // computed per store round from the recorded datagrams: 3xx iff count >= recipients / 2 + 1.
     let odd_round = std::cell::Cell::new(false);
-    let (storers_result, storers_result2) = if family == 5 || family == 6 || (family == 7 && n >= 3) {
+    let (storers_result, storers_result2) = if family == 5 || family == 6 || (family == 7 && n >= 3) || (family == 8 && n >= 5) {
         let mut rounds: Vec<(u64, Vec<usize>)> = vec![];
         sim.with_trace(|tr| {
             for d in tr.iter().filter(|d| d.from_host == Some(writer) && d.t_send >= t0) {
